@@ -10,6 +10,28 @@ from simkit.oracles.naming import lookup_answers
 from simkit.violation import Violation
 from simkit.world import kind_of
 
+from simkit import oplang as _oplang
+
+
+@_oplang.op("blackbox_shared")
+def _(w, e):
+    n = _oplang.need(w, e["on"])
+    defs = [d for lib in n.libraries for d in lib.definitions]
+    for d in defs:
+        d.is_leaf()                      # (what every recursive query and the writers ask)
+    top = n.top_instance.reference if n.top_instance is not None else None
+    c = [d for d in defs if d is not top and len(d.children) and len(d.references) >= 2]
+    if not c:
+        raise _oplang.Skip("no shared cell with contents")
+    d = c[e["k"] % len(c)]
+    for cable in d.cables:
+        for wire in cable.wires:
+            wire.disconnect_pins_from(list(wire.pins))
+    d.remove_children_from(list(d.children))
+    d.remove_cables_from(list(d.cables))
+    w.count("probe.shared_cell_blackboxed")
+
+
 REAL = ["spydrnet.uniquify", "spydrnet.ir.* (clone, reference re-pointing)", "callback framework",
         "namespace manager plugin"]
 STUB = ["identity hash of IR objects (PRNG chosen)", "GC schedule", "uniquify name counter start value", "process "
@@ -60,6 +82,7 @@ class C08(Prop):
         cfg["restart"] = rng.random() < 0.3
         cfg["late_pins"] = 0 if cfg["restart"] else rng.choice([0, 0, 0.4])
         cfg["wire_reorder_rate"] = rng.choice([0, 0, 0.5])
+        cfg["blackbox_first"] = rng.random() < 0.15
         if not cfg["restart"] and rng.random() < 0.2:
             cfg["source"] = "v"
             cfg["vgen"] = {"depth": rng.choice([2, 3, 4]), "max_mods": rng.choice([1, 2, 3]), "max_ports": rng.choice([2, 4]),
@@ -83,6 +106,10 @@ class C08(Prop):
             return ScriptGen(ev + [{"op": "uniquify", "on": "e1.0"}, {"op": "uniquify", "on": "e1.0"}])
         b = Builder(rng, cfg)
         ev = b.build()
+        if cfg.get("blackbox_first"):
+            # before uniquify a shared cell is made a black box the bulk way (its nets taken apart, all children and all
+            # cables removed in one call each), after a query has asked every cell whether it is a leaf
+            ev.append({"op": "blackbox_shared", "on": b.netlist, "k": rng.randint(0, 10 ** 6)})
         tail = [{"op": "uniquify", "on": b.netlist}]
         if cfg.get("gc_between"):
             tail.append({"op": "gc"})
